@@ -165,7 +165,13 @@ class LRUTrieNode(object):
                 chunks = []
 
                 while True:
-                    data = struct.unpack(LRU_TRIE_NODE_FORMAT, self.storage.read())
+                    raw = self.storage.read()
+
+                    # A torn write may have left the head without its tail
+                    if raw is None:
+                        break
+
+                    data = struct.unpack(LRU_TRIE_NODE_FORMAT, raw)
                     chars = data[LRU_TRIE_NODE_STEM]
 
                     chunks.append(chars)
